@@ -243,13 +243,19 @@ impl AsyncFileSystem for AsyncMemoryFS {
     async fn create_file(&self, path: &str) -> VfsResult<Box<dyn Write + Send + Unpin>> {
         self.ensure_has_parent(path).await?;
         let content = Arc::new(Vec::<u8>::new());
-        self.handle.write().await.files.insert(
-            path.to_string(),
-            AsyncMemoryFile {
-                file_type: VfsFileType::File,
-                content,
-            },
-        );
+        {
+            let mut handle = self.handle.write().await;
+            if let Some(file) = handle.files.get(path) {
+                ensure_file(file)?;
+            }
+            handle.files.insert(
+                path.to_string(),
+                AsyncMemoryFile {
+                    file_type: VfsFileType::File,
+                    content,
+                },
+            );
+        }
         let writer = AsyncWritableFile {
             content: Cursor::new(vec![]),
             destination: path.to_string(),
